@@ -27,6 +27,7 @@ import Gama.Model.AdjState
 import Gama.Lemmas.FullState
 import Gama.Lemmas.AdjState
 import Gama.Model.FullHist
+import Gama.Model.FullDenote
 import Gama.Model.AdjHist
 import Gama.Lemmas.AdjHist
 import Gama.Model.Ls.Common
@@ -167,13 +168,24 @@ def numFull (a : Except ErrKind (Answer Float)) : Full.Out → String
   | .stale w => "stale " ++ w
   | .ok => "ok"
 
-def evalFull (outside : Bool) (a : Except ErrKind (Answer Float)) (o expected : Full.Out) : String :=
+def showD : DVal Float → String
+  | .vec v => showVec v
+  | .num x => "val " ++ showFloat x
+  | .int n => s!"int {n}"
+  | .flag b => s!"flag {b01 b}"
+  | .ok => "ok"
+  | .err .NotModelled => "not-modelled"
+  | .err e => "throw " ++ e.name
+  | .stale w => "stale " ++ w
+
+/-- numbers are printed through the denotation of the symbolic answer (Model/FullDenote.lean) -/
+def evalFull (outside : Bool) (alg : Ls.Alg) (p : Problem Float) (c : Reg) (o expected : Full.Out) : String :=
   match o with
   | .badReg => "throw BadRegularization"
   | .ok => "ok"
   | .stale w => "stale " ++ w
   | _ => if outside || outBroken o then "after-throw"
-         else if o = expected then numFull a o
+         else if o = expected then showD (denoteF alg p c o)
          else "stale " ++ toString (repr o)
 
 def parseOp (ts : List String) : Option Full.Op :=
@@ -322,14 +334,14 @@ def step' (s : St) (line : String) : St × String :=
         let a : AdjM.Alg := match k with | .chol => .chol | .gso => .gso
         let inp := fInput p.n (s.nul a)
         let o := Full.fresh k inp st.useAll st.list op
-        (s, evalFull (outsideF inp st) (solverOf (lsAlg a) { p with reg := regFull st }) o (Full.spec k inp (Full.eff inp st) op))
+        (s, evalFull (outsideF inp st) (lsAlg a) p (regFull st) o (Full.spec k inp (Full.eff inp st) op))
       | none => (s, "bad-op")
     | some (.svd st) =>
       match parseOp q with
       | some op =>
         let inp := fInput p.n (s.nul .svd)
         let o := Full.sfresh inp st.sub st.list op
-        (s, evalFull (outsideS inp st) (solverOf .svd { p with reg := regSvd st }) o (Full.sspec inp (Full.seff st) op))
+        (s, evalFull (outsideS inp st) .svd p (regSvd st) o (Full.sspec inp (Full.seff st) op))
       | none => (s, "bad-op")
     | some (.adj h) =>
       match parseAOp q with
@@ -347,7 +359,7 @@ def step' (s : St) (line : String) : St × String :=
         let inp := fInput p.n (s.nul a)
         let (st', o) := Full.step k inp st op
         ({ s with obj := some (.full k st') },
-          evalFull (outsideF inp st') (solverOf (lsAlg a) { p with reg := regFull st' }) o (Full.spec k inp (Full.eff inp st) op))
+          evalFull (outsideF inp st') (lsAlg a) p (regFull st') o (Full.spec k inp (Full.eff inp st) op))
       | none => (s, "bad-op")
     | some (.svd st) =>
       match parseOp ts with
@@ -355,7 +367,7 @@ def step' (s : St) (line : String) : St × String :=
         let inp := fInput p.n (s.nul .svd)
         let (st', o) := Full.sstep inp st op
         ({ s with obj := some (.svd st') },
-          evalFull (outsideS inp st') (solverOf .svd { p with reg := regSvd st' }) o (Full.sspec inp (Full.seff st) op))
+          evalFull (outsideS inp st') .svd p (regSvd st') o (Full.sspec inp (Full.seff st) op))
       | none => (s, "bad-op")
     | some (.adj h) =>
       match parseAOp ts with
